@@ -727,6 +727,33 @@ def _c12_configs(prop, res, workdir):
         res.evaluations += len(idx)
     res.notes.append(f"c12 implementation side repeated in fresh processes under GOMAXPROCS {tried} (host has {cpus} CPUs): "
                      f"{len(idx)} cases each, identical answers")
+    # cold start, concurrent first use: the first lookups of a fresh process come from 12 goroutines started
+    # 0 / 20 / 150 / 400 microseconds apart (tables built lazily, or flagged ready too early, hand a late
+    # worker a half-built table); every worker must give the answers of the default run
+    cold_idx = idx[::max(1, len(idx) // 160)]
+    cold = "\n".join(ins[i] for i in cold_idx) + "\n"
+    tried_cold = []
+    for stagger in (0, 20, 150, 400):
+        for rep in range(2):
+            env = dict(V.ENV, VERIF_C12_COLD=f"12 {stagger}", GOMAXPROCS=str(max(4, min(cpus, 16))))
+            rc, out = V.sh([os.path.join(V.BIN, "h"), "list"], cwd=V.BUILD, inp=cold, env=env, timeout=600)
+            got = out.split("\n")
+            for wk in range(12):
+                for k, i in enumerate(cold_idx):
+                    j = wk * len(cold_idx) + k
+                    if j >= len(got) or got[j].split() != impl[i].split():
+                        w = {"stream": "c12", "input": ins[i],
+                             "desc": f"fresh process, 12 goroutines started {stagger} us apart, worker {wk}: " + (desc[i] if i < len(desc) else ""),
+                             "impl_output": got[j] if j < len(got) else "", "impl_output_default_config": impl[i],
+                             "verdict": "0 21 (answer of a first lookup made while other goroutines make theirs)",
+                             "replay_hint": f"echo '{ins[i][:200]}...' | VERIF_C12_COLD='12 {stagger}' build/bin/h list"}
+                        res.add_violation("witness", w, True)
+                        res.notes.append(f"c12: cold concurrent first use (stagger {stagger} us) gives other answers")
+                        return
+            res.evaluations += 12 * len(cold_idx)
+        tried_cold.append(stagger)
+    res.notes.append(f"c12 cold start: first lookups of a fresh process from 12 goroutines staggered by {tried_cold} us "
+                     f"(twice each): {len(cold_idx)} cases per worker, identical answers")
 
 
 
